@@ -6,7 +6,7 @@ from ..core.runner import Partial
 LEVEL = "exploration"
 RULE = ("dataset modes {x, x class, index x class} x return_ctx x every sequence of 1..3 recording collators over collation "
         "modes {None, before, after} (each optionally adding a context key) x the three entry points (compose collator, single "
-        "collator called directly, single-collator wrapper) x batch sizes 1..3, plus shipped collators inside a pipeline; "
+        "collator called directly, single-collator wrapper) x batch sizes 1..3 (each also as the second call on a pipeline object that already collated a batch of another size, and with empty per-sample contexts), plus shipped collators inside a pipeline; "
         "default_collate is counted by a harness wrapper; reference model: the position of the one default collation and what "
         "each member must observe; padding collator: every length profile in {1,2,3}^b, b<=3, extra fixed-size fields, scalar "
         "fields, with/without per-sample contexts; distinct = distinct (configuration, observation) pairs")
@@ -48,6 +48,7 @@ def lib():
 
 
 EMPTY_CTX = [False]
+PRIOR = [0]  # > 0: the same pipeline object already collated a batch of that size before the judged call
 
 
 def sample(mode, i, return_ctx):
@@ -105,6 +106,13 @@ def run_pipeline(entry, seq, adds, mode, return_ctx, B):
             col = Rec(seq[0], adds[0], log, dataset_mode=mode, return_ctx=return_ctx)
         else:
             col = KDSingleCollatorWrapper(Rec(seq[0], adds[0], log), dataset_mode=mode, return_ctx=return_ctx)
+        if PRIOR[0]:
+            try:
+                col([sample(mode, 10 + i, return_ctx) for i in range(PRIOR[0])])
+            except Exception:
+                pass
+            del log[:]
+            del calls[:]
         out = col(batch)
     finally:
         base_mod.default_collate = real
@@ -113,8 +121,9 @@ def run_pipeline(entry, seq, adds, mode, return_ctx, B):
 
 def check_pipeline(entry, seq, adds, mode, return_ctx, B, p):
     import torch
-    case = dict(entry=entry, seq=list(seq), adds=list(adds), mode=mode, return_ctx=return_ctx, B=B, empty_ctx=EMPTY_CTX[0])
-    tag = f"|entry={entry}|seq={'>'.join(str(m) for m in seq)}|return_ctx={return_ctx}{'|empty_ctx' if EMPTY_CTX[0] else ''}"
+    case = dict(entry=entry, seq=list(seq), adds=list(adds), mode=mode, return_ctx=return_ctx, B=B, empty_ctx=EMPTY_CTX[0], prior=PRIOR[0])
+    tag = (f"|entry={entry}|seq={'>'.join(str(m) for m in seq)}|return_ctx={return_ctx}{'|empty_ctx' if EMPTY_CTX[0] else ''}"
+           f"{'|after_earlier_call' if PRIOR[0] else ''}")
     exp = model(seq)
     p.evaluations += 1
     try:
@@ -172,6 +181,15 @@ def _judge_pipeline(entry, seq, adds, mode, return_ctx, B, p, case, tag, exp, ou
         if isinstance(out, tuple) and len(out) == 2 and isinstance(out[1], dict):
             bad("ctx_returned_unrequested", "")
             return
+    # the keys a member finds in the context: the per-sample keys (if contexts are returned) plus what earlier members of THIS
+    # call added - nothing else (nothing left over from an earlier batch)
+    have = set(("pre", "pre2") if return_ctx and not EMPTY_CTX[0] else ())
+    for k, (entry_log, add) in enumerate(zip(log, adds)):
+        if entry_log["ctx_keys"] is not None and set(entry_log["ctx_keys"]) != have:
+            bad("member_sees_foreign_ctx_keys", f"member {k} found ctx keys {entry_log['ctx_keys']}, expected {sorted(have)}")
+            return
+        if add:
+            have.add(add)
     items = mode.split(" ")
     if ncoll == 1:
         vals = [out] if len(items) == 1 else list(out)
@@ -309,6 +327,11 @@ def task(args):
                     for B in (1, 2, 3):
                         EMPTY_CTX[0] = False
                         check_pipeline(entry, seq, adds, mode, rc, B, p)
+                        PRIOR[0] = B % 3 + 1  # the pipeline object is used for every batch of an epoch: no state may leak
+                        try:
+                            check_pipeline(entry, seq, adds, mode, rc, B, p)
+                        finally:
+                            PRIOR[0] = 0
                         if rc and B <= 2:
                             EMPTY_CTX[0] = True  # ModeWrapper(return_ctx=True) hands out {} when nothing records anything
                             try:
@@ -361,8 +384,10 @@ def replay(case):
         shipped_pipeline(p)
     else:
         EMPTY_CTX[0] = bool(case.get("empty_ctx"))
+        PRIOR[0] = int(case.get("prior") or 0)
         try:
             check_pipeline(case["entry"], tuple(case["seq"]), tuple(case["adds"]), case["mode"], case["return_ctx"], case["B"], p)
         finally:
             EMPTY_CTX[0] = False
+            PRIOR[0] = 0
     return None if not p.violations else "; ".join(m for _, m in list(p.violations.values())[:3])
